@@ -24,6 +24,7 @@ type Obligation struct {
 	Cover  bool // vacuity cover: expected sat/unknown
 	Static bool // decided syntactically (no SMT query)
 	Label  string // clause label (for hypothesis slicing)
+	RawQuery string // complete SMT-LIB query produced by an extra engine
 }
 
 type State struct {
@@ -707,6 +708,9 @@ func (o *Obligation) Query() string { return o.QuerySliced("") }
 // QuerySliced: with keep != "", quantified tagged hypotheses whose label stem differs from keep
 // are dropped (sound: fewer assumptions).
 func (o *Obligation) QuerySliced(keep string) string {
+	if o.RawQuery != "" {
+		return o.RawQuery
+	}
 	if o.Static || o.vc == nil {
 		return "; decided without an SMT query: " + o.Src + "\n"
 	}
